@@ -17,6 +17,7 @@ def gen_any(rng):
 
 class C04(Property):
     pid = "C04"
+    exact_text = True
     quick_n = 3000
     thorough_n = 150000
     partial = ["C04_nopanic is proved for the ledger operations under well-formedness; purity is not a theorem (Gallina functions "
